@@ -492,7 +492,7 @@ def cases(tier):
             out.append(Case('parse[%s|private]' % name, _skeleton_case(d, True), max_paths=64, timeout_ms=20000, nsamples=1))
     out.append(Case('malformed_rejected', None, custom=_malformed_case(sk if th else sk[::3])))
     out.append(Case('token_languages', None, custom=_tokens_case))
-    out.append(Case('token_actions', None, custom=_token_actions_case, budget_s=600 if th else 200))
+    out.append(Case('token_actions', None, custom=_token_actions_case, budget_s=1700 if th else 200))
     out.append(Case('token_actions_crosshair', None, custom=_crosshair_tokens, budget_s=700 if th else 230))
     return out
 
